@@ -127,8 +127,11 @@ func (c *TreeCacheClientImpl) GetBranchesHighesPrecedence(ctx context.Context, p
 	defer c.intendedStoreIndexMutex.RUnlock()
 
 	// TODO: Improve this, since it is probably an expensive operation
+	// the path itself or any path below it, compared by whole path elements. A raw string prefix
+	// comparison would also match siblings whose name merely starts with the name of the last path element.
+	pathKeyPrefix := pathKey + KeysIndexSep
 	for key, entries := range c.intendedStoreIndex {
-		if strings.HasPrefix(key, pathKey) {
+		if key == pathKey || strings.HasPrefix(key, pathKeyPrefix) {
 			if prio := entries.GetLowestPriorityValue(filters); prio < result {
 				result = prio
 			}
